@@ -104,6 +104,8 @@ class Kit(object):
             keys = gen_ti.top_keys(K)
             if main_variant == "random" and keys and rng.random() < 0.5:
                 o["main_variant"] = pick(rng, keys)
+        if rng.random() < 0.15:
+            o["to"] = "handle"
         return _sl(o, slot)
 
     # -- valid mutation -----------------------------------------------------------------
